@@ -164,6 +164,27 @@ impl Minimizer {
             c.heap_perturb = 0;
             self.try_accept(cur, c);
         }
+        // preemption granularities the violation does not need
+        if cur.alloc_yield_mean > 0 {
+            let mut c = cur.clone();
+            c.alloc_yield_mean = 0;
+            self.try_accept(cur, c);
+        }
+        if cur.block_yield_mean > 0 {
+            let mut c = cur.clone();
+            c.block_yield_mean = 0;
+            self.try_accept(cur, c);
+        }
+        if cur.atomic_yield_mean > 0 {
+            let mut c = cur.clone();
+            c.atomic_yield_mean = 0;
+            self.try_accept(cur, c);
+        }
+        if cur.atomic_hold_mean > 0 {
+            let mut c = cur.clone();
+            c.atomic_hold_mean = 0;
+            self.try_accept(cur, c);
+        }
         let n = Self::each_call_mut(&mut cur.clone()).len();
         for idx in 0..n {
             let (has_panic, has_session) = {
